@@ -1286,11 +1286,48 @@ func vfc17GenOps(r *vfRand, n int) []c17Op {
 		default:
 			op.Gap, op.GapMs = "sleep", r.Range(40, 120)
 		}
-		kind := vfPick(r, []string{"grow", "grow", "shrink", "shrink", "empty", "attributes", "attributes", "shift-communities", "identical", "subset", "replace"})
+		kind := vfPick(r, []string{"grow", "grow", "shrink", "shrink", "empty", "attributes", "attributes", "shift-communities", "identical", "subset", "replace", "flip-back"})
 		if i == 0 && r.Chance(3, 4) {
 			kind = "grow"
 		}
 		pr, ab := present(), absent()
+		if kind == "flip-back" {
+			// the requested set changes and, without any pause, goes back to exactly what it was (a service created
+			// and deleted at once, a flap): the change comes after a pause long enough for the former set to be on the
+			// wire, so the second call asks for what the peer already holds while the first is still pending
+			prev := map[string]c17Route{}
+			for k, v := range cur {
+				prev[k] = v
+			}
+			routesOf := func(m map[string]c17Route) []c17Route {
+				var out []c17Route
+				for _, u := range c17Universe {
+					if rt, ok := m[u]; ok {
+						out = append(out, rt)
+					}
+				}
+				return out
+			}
+			switch {
+			case len(ab) > 0 && (len(pr) == 0 || r.Bool()):
+				u := vfPick(r, ab)
+				cur[u] = vfc17Attrs(r, u)
+			case len(pr) > 0 && r.Bool():
+				delete(cur, vfPick(r, pr))
+			case len(pr) > 0:
+				u := vfPick(r, pr)
+				for try := 0; try < 8; try++ {
+					if nr := vfc17Attrs(r, u); !vfc17SameAttrs(nr, cur[u]) {
+						cur[u] = nr
+						break
+					}
+				}
+			}
+			ops = append(ops, c17Op{Kind: "flip-back:change", Gap: "sleep", GapMs: 150, Routes: routesOf(cur)})
+			cur = prev
+			ops = append(ops, c17Op{Kind: "flip-back:revert", Gap: vfPick(r, []string{"none", "none", "yield"}), Routes: routesOf(cur)})
+			continue
+		}
 		switch kind {
 		case "grow":
 			vfShuffle(r, ab)
@@ -1490,6 +1527,8 @@ func vfc17BigScenario(r *vfRand, id int) *c17Scenario {
 func vfc17Directed() []*c17Scenario {
 	routes := []c17Route{{Prefix: "10.7.0.1/32", LocalPref: 100}, {Prefix: "10.7.1.0/24", LocalPref: 100, Comms: []uint32{65000<<16 | 1}}}
 	set := func(rs ...c17Route) c17Op { return c17Op{Gap: "sleep", GapMs: 5, Kind: "directed", Routes: rs} }
+	wait := func(rs ...c17Route) c17Op { return c17Op{Gap: "sleep", GapMs: 200, Kind: "flip-back:change", Routes: rs} }
+	now := func(rs ...c17Route) c17Op { return c17Op{Gap: "none", Kind: "flip-back:revert", Routes: rs} }
 	as4 := func(my uint32, peerAS4 bool) *c17Scenario {
 		sc := &c17Scenario{Class: "normal", MyASN: my, PeerASN: 64513, PeerAS4: peerAS4, HoldS: 90, PeerHoldS: 90, Ops: []c17Op{set(routes...)}}
 		if my > 0xffff && !peerAS4 {
@@ -1553,6 +1592,12 @@ func vfc17Directed() []*c17Scenario {
 			Conns: []c17ConnScript{{OpenStyle: "as-trans-no-cap"}, {OpenStyle: "plain"}}, Ops: []c17Op{set(routes...)}},
 		{Class: "normal", MyASN: 4200000001, PeerASN: 4200000001, PeerAS4: true, HoldS: 90, PeerHoldS: 90,
 			Conns: []c17ConnScript{{OpenStyle: "as-trans-no-cap"}, {OpenStyle: "cap-wins"}}, Ops: []c17Op{set(routes[0])}},
+		// flip-back: after a pause long enough for the requested set to be on the wire the set changes (grows,
+		// is emptied, changes an attribute) and, in the very next call, is back to exactly what the peer holds
+		{Class: "normal", MyASN: 64512, PeerASN: 64513, PeerAS4: true, HoldS: 90, PeerHoldS: 90, Ops: []c17Op{
+			set(routes[0]), wait(routes...), now(routes[0]), wait(), now(routes[0]), wait(c17Route{Prefix: "10.7.0.1/32", LocalPref: 250}), now(routes[0])}},
+		{Class: "normal", MyASN: 64512, PeerASN: 64512, PeerAS4: true, HoldS: 90, PeerHoldS: 90, Ops: []c17Op{
+			set(routes...), wait(routes[1]), now(routes...), wait(routes[0]), now(routes...), wait(routes[0], routes[1], c17Route{Prefix: "10.7.2.0/24"}), now(routes...)}},
 		// a refused Set (valid routes in front of the refused one) is the last call; then the peer drops the
 		// idle connection: the re-sent table is the last ACCEPTED set
 		{Class: "normal", MyASN: 64512, PeerASN: 64513, PeerAS4: true, HoldS: 90, PeerHoldS: 90,
